@@ -142,6 +142,10 @@ type Spec struct {
 	// Files2, when set, are the sub-workflow files given to the second preparation (same names, other
 	// contents): two preparations of one text must each keep to their own files.
 	Files2 map[string]string
+	// RejectedPrepares preparations of RejectedText (a text the engine must refuse) are made right before
+	// the second preparation: what was refused before must not change what a valid text gets.
+	RejectedPrepares int
+	RejectedText     string
 	// PrepareOnly stops after Prepare (C05 probe checks, C10, C16).
 	PrepareOnly bool
 	// AfterPrepare, if set, is called on the main client goroutine with the prepared workflow.
@@ -334,6 +338,15 @@ func Run(t *testing.T, sp Spec) (res *Result) {
 						for k, v := range sp.Files2 {
 							files2[k] = []byte(v)
 						}
+					}
+					if sp.RejectedPrepares > 0 {
+						accepted := 0
+						for i := 0; i < sp.RejectedPrepares; i++ {
+							if _, err := env.Prepare(sp.RejectedText, files2); err == nil {
+								accepted++
+							}
+						}
+						w.Log(world.Event{Kind: world.EvClient, Data: map[string]any{"what": "rejected-prepares", "n": sp.RejectedPrepares, "accepted": accepted}})
 					}
 					x, err := env.Prepare(sp.Text, files2)
 					if s.Draining() {
